@@ -17,6 +17,24 @@ CLAIMED = {
              "C12), zero-valued limits treated as unset (as the code does), DelayManager/PSU/BCP client-view "
              "contracts. Platform back ends themselves are outside.",
         ref="4.C08"),
+    "C15": dict(
+        text="FileManager.save proved against a ghost file system for every crash point and injected fault: the only "
+             "step that touches the target is os.replace of a completely written temp file whose path differs from "
+             "the target for every filename (string lemma over dirname/basename), so the target is the complete old "
+             "or new version after every file-system step; a failed save leaves the old version and releases the "
+             "global busy flag on every exit. DataManager._writing_thread proved as a sequential contract under a "
+             "rely (save_all / stop / busy flag may change at every library call): D1 'no write pending => file == "
+             "latest data', no exception leaves the loop, D2 the shutdown flush writes whatever is pending. Machine "
+             "variables: configure/set/_write_machine_var_to_disk/get proved for all names, scalar values, flags and "
+             "expiry periods (value stored, persisted changes handed to the data manager with value and expiry time, "
+             "change announced once).",
+        note="Bounded, not counted as proved: _write_machine_vars_to_disk and load_machine_vars (stores / files of "
+             "<= 2 variables); native fault-injection (24 scenarios) and writer-schedule enumeration (3864 schedules) "
+             "on the real code. Trusted: A-LIB (interface.save touches only its path, os.replace atomic, posix "
+             "paths; axioms compared with posixpath on 21845 paths each run), A-THREAD (rely; statement-level "
+             "interleavings, the racy check-then-set of is_busy and thread death at process exit are outside), "
+             "A-SHUTDOWN, fsync durability and YAML representability not modelled, values are scalars.",
+        ref="4.C15"),
     "C20": dict(
         text="Credit arithmetic proved for all balances, coin values, tier positions and configurations: "
              "_add_credit_units yields exactly min(old + units + pricing-table bonus, max) (loop invariant over the "
